@@ -74,7 +74,8 @@ def run_case(desc):
     n, d = desc["n"], 2
     is_bm = desc["family"] == "bm"
     name = desc["name"]
-    comp = name if not desc["bm"] else "%s+%s" % (name, desc["bm"])
+    comp = name
+    with_bm = "" if not desc["bm"] else " [budget_manager=%s]" % desc["bm"]
     if is_bm:
         U = streams.utility_stream(rng, desc["stream"], n, desc["budget"])
         U = np.round(U * 64) / 64.0
@@ -91,7 +92,7 @@ def run_case(desc):
 
     def add(kind, detail, chunking):
         if not any(v["kind"] == kind for v in viol):
-            v = {"component": comp, "kind": kind, "detail": detail}
+            v = {"component": comp, "kind": kind, "detail": detail + with_bm}
             v["trigger"] = triggers.classify("C10", v, dict(desc, chunking=chunking))
             viol.append(v)
 
@@ -140,9 +141,9 @@ def run_case(desc):
             contracts.count("C10.update-acceptance")
             try:
                 if is_bm:
-                    streams.update_bm(obj, cand, np.asarray(idx), util)
+                    streams.update_bm(obj, cand, idx, util)
                 else:
-                    streams.update_strategy(obj, cand, np.asarray(idx), util)
+                    streams.update_strategy(obj, cand, idx, util)
                 stats["updates"] += 1
             except Exception as ex:
                 add("update-raises:%s" % type(ex).__name__,
